@@ -29,7 +29,17 @@ import (
 	"verif/sim/runner"
 )
 
-const verifDir = "/verif"
+// verifDir is the directory the driver works in: the current directory when it
+// looks like the verification tree (MANIFEST commands run with cwd=/verif; a
+// background snapshot runs in its own copy), /verif otherwise.
+var verifDir = func() string {
+	if wd, err := os.Getwd(); err == nil {
+		if _, err := os.Stat(filepath.Join(wd, "cmd", "check")); err == nil {
+			return wd
+		}
+	}
+	return "/verif"
+}()
 
 var repoDir = envOr("VERIF_REPO", "/repo")
 
